@@ -144,6 +144,15 @@ pub fn calls() -> BoxedStrategy<Call> {
         1 => raw_res().prop_map(|res| Call::NumCells { res }),
         1 => raw_res().prop_map(|res| Call::Area { res }),
         3 => proptest::collection::vec(raw_id(), 0..8).prop_map(|ids| Call::Compact { ids }),
+        // runs of stride-spaced IDs starting at any raw ID (what the sibling detection adds up), plus strays
+        2 => (raw_id(), 1usize..14, proptest::collection::vec(raw_id(), 0..3), any::<bool>()).prop_map(|(base, n, extra, high)| {
+            let base = if high { base | (0xFu64 << 60) } else { base };
+            let r = a5::get_resolution(base);
+            let stride = if r < 2 { 1u64 << 58 } else { 1u64 << (2 * (30 - r) as u32) };
+            let mut ids: Vec<u64> = (0..n as u64).map(|j| base.wrapping_add(j.wrapping_mul(stride))).collect();
+            ids.extend(extra);
+            Call::Compact { ids }
+        }),
         3 => (proptest::collection::vec(raw_id(), 0..5), raw_res()).prop_map(|(ids, res)| Call::Uncompact { ids, res }),
         1 => Just(Call::Res0),
         1 => any::<u64>().prop_map(|v| Call::Hex { v }),
@@ -400,6 +409,9 @@ pub fn check_call(call: &Call, st: &mut Stats) -> Result<(), String> {
             nontrivial = true;
             let _ = a5::hex_to_u64(s);
         }
+    }
+    if st.frozen {
+        return Ok(());
     }
     let f = call_json(call)["f"].as_str().unwrap_or("?").to_string();
     if nontrivial {
